@@ -54,7 +54,10 @@ def check_C06(tier, seed):
     else:
         pats = ["P322", "P222", "P232", "P223", "P2222", "P3222"]
         md = {(f, p): (4 if len(p) == 5 and f in ("get", "geterr") else 3) for f in ("get", "geterr", "setnum") for p in pats}
-    run_index(out, ["get", "geterr", "setnum"], pats, md, ["Prop_C06", "Prop_C05"], "C06", extra=PATTERN_MODELS)
+    # (writes with an ARRAY source in every order of the region's dims on equal-length dimensions: "arranged in the
+    # remaining dimensions' order" is C06's clause as much as C05's)
+    run_index(out, ["get", "geterr", "setnum"], pats, md, ["Prop_C06", "Prop_C05"], "C06",
+              extra=PATTERN_MODELS + [("setarr", "P222", 2 if tier == "quick" else 3)])
     from .checks_traces import run_traces
     run_traces(out, "C06", tier)
     # L2: numpy's axis-order rule + flodym's open-mesh conversion refine the contract's labelling for every index
